@@ -58,9 +58,9 @@ def sites : List Site := [
     hash := "72cc068740cb49c4cd9f4901b51f8a189342791bdbe57653434e3e59a76fbb58",
     next := "" },
   -- checker_package.go depsOf #0: range deps
-  --   return d for the key whose Name is `name` (first match); invariant: the declared global identifiers of a package that type-checks have distinct names
-  { file := "checker_package.go", fn := "depsOf", cls := .uniqueMatch,
-    hash := "bbb96f3105ff24e0c8bb1ee2830ed04c835abca4ff56e6d14b29eee572c611b3",
+  --   first = the key whose Name is `name` that comes first in the source (smallest Pos().Start, strict <), deps[first] returned after the loop — after fix 89d8011 (C30-dup-name-loop-report); before it the loop returned at the first key with that name it met, so with a name declared twice the result depended on the order; invariant: the declared identifiers of a package are nodes of one source file, different ones have different start offsets
+  { file := "checker_package.go", fn := "depsOf", cls := .minMaxSelect,
+    hash := "46f0671fa03a29013367e56973a46f81997dec6640d93323e123a5e89812cda1",
     next := "" },
   -- checker_package.go sortDeclarations #0: range deps
   --   deps[decl] = filter(ds) with loop-invariant consts/types/funcs/vars: rewrites the cell of the current key only
